@@ -96,3 +96,228 @@ Proof.
   - destruct (dec_of_nat_spec z Hp) as (ds & E & Fd & V & NE). rewrite E.
     rewrite (parse_int_digits ds Fd NE). rewrite <- E. apply parse_dec_of_nat. exact Hp.
 Qed.
+
+(* ---- fixed-width hexadecimal and binary digit strings parse back to the number (any width) ---- *)
+Lemma parse_digits_app_b b : forall l1 l2 acc v,
+  parse_digits b l1 acc = Some v -> parse_digits b (l1 ++ l2) acc = parse_digits b l2 v.
+Proof.
+  induction l1 as [|c l1 IH]; intros l2 acc v H; cbn [parse_digits app] in *.
+  - injection H as ->. reflexivity.
+  - destruct (digit_val c) as [d|]; [|discriminate]. destruct (Z.ltb d b); [|discriminate]. apply IH. exact H.
+Qed.
+Lemma digit_val_hexit d : 0 <= d < 16 -> digit_val (hexit d) = Some d.
+Proof.
+  intros H. assert (E : exists n, (n < 16)%nat /\ d = Z.of_nat n) by (exists (Z.to_nat d); lia).
+  destruct E as (n & Hn & ->). do 16 (destruct n as [|n]; [reflexivity|]). lia.
+Qed.
+Lemma digit_val_bit d : 0 <= d < 2 -> digit_val (48 + d) = Some d.
+Proof. intros H. assert (E : d = 0 \/ d = 1) by lia. destruct E as [-> | ->]; reflexivity. Qed.
+
+Theorem hex_fixed_parse : forall (k : nat) a acc, 0 <= a < 16 ^ Z.of_nat k ->
+  parse_digits 16 (hex_fixed k a) acc = Some (acc * 16 ^ Z.of_nat k + a).
+Proof.
+  induction k as [|k IH]; intros a acc Ha.
+  - cbn [hex_fixed parse_digits]. change (16 ^ Z.of_nat 0) with 1 in *. f_equal. lia.
+  - cbn [hex_fixed]. rewrite Nat2Z.inj_succ, Z.pow_succ_r in * by lia.
+    assert (Hq : 0 <= a / 16 < 16 ^ Z.of_nat k).
+    { split; [apply Z.div_pos; lia|]. apply Z.div_lt_upper_bound; lia. }
+    rewrite (parse_digits_app_b 16 _ _ acc _ (IH (a / 16) acc Hq)).
+    cbn [parse_digits]. rewrite digit_val_hexit by (apply Z.mod_pos_bound; lia).
+    assert (Hm : a mod 16 <? 16 = true) by (apply Z.ltb_lt; apply Z.mod_pos_bound; lia).
+    rewrite Hm. f_equal. pose proof (Z.div_mod a 16 ltac:(lia)). lia.
+Qed.
+Theorem bin_fixed_parse : forall (k : nat) a acc, 0 <= a < 2 ^ Z.of_nat k ->
+  parse_digits 2 (bin_fixed k a) acc = Some (acc * 2 ^ Z.of_nat k + a).
+Proof.
+  induction k as [|k IH]; intros a acc Ha.
+  - cbn [bin_fixed parse_digits]. change (2 ^ Z.of_nat 0) with 1 in *. f_equal. lia.
+  - cbn [bin_fixed]. rewrite Nat2Z.inj_succ, Z.pow_succ_r in * by lia.
+    assert (Hq : 0 <= a / 2 < 2 ^ Z.of_nat k).
+    { split; [apply Z.div_pos; lia|]. apply Z.div_lt_upper_bound; lia. }
+    rewrite (parse_digits_app_b 2 _ _ acc _ (IH (a / 2) acc Hq)).
+    cbn [parse_digits]. rewrite digit_val_bit by (apply Z.mod_pos_bound; lia).
+    assert (Hm : a mod 2 <? 2 = true) by (apply Z.ltb_lt; apply Z.mod_pos_bound; lia).
+    rewrite Hm. f_equal. pose proof (Z.div_mod a 2 ltac:(lia)). lia.
+Qed.
+(* the hexadecimal integer literal: "0x" followed by the hexits *)
+Theorem parse_int_hex (k : nat) a : 0 <= a < 16 ^ Z.of_nat k -> parse_int (48 :: 120 :: hex_fixed k a) = Some a.
+Proof. intros H. cbn [parse_int]. rewrite (hex_fixed_parse k a 0 H). f_equal. Qed.
+
+(* ---- cfloat: assign (to_binary x) = x, for every width and exponent size ---- *)
+Definition isbd (c : Z) : Prop := c = 48 \/ c = 49 \/ c = 46.
+Fixpoint nbitc (l : list Z) : Z := match l with [] => 0 | c :: r => (if Z.eqb c 46 then 0 else 1) + nbitc r end.
+Fixpoint ndotc (l : list Z) : Z := match l with [] => 0 | c :: r => (if Z.eqb c 46 then 1 else 0) + ndotc r end.
+Lemma cf_scan_clean : forall l nb nd acc, Forall isbd l ->
+  cf_scan l nb nd acc = Some (nb + nbitc l, nd + ndotc l, rev acc ++ l).
+Proof.
+  induction l as [|c l IH]; intros nb nd acc H; cbn [cf_scan nbitc ndotc].
+  - rewrite app_nil_r. do 2 f_equal; f_equal; lia.
+  - inversion H as [|? ? Hc Hl]; subst. destruct Hc as [-> | [-> | ->]]; cbn [Z.eqb Pos.eqb orb];
+      rewrite IH by exact Hl; cbn [rev]; rewrite <- app_assoc; cbn [app]; do 2 f_equal; f_equal; lia.
+Qed.
+Lemma nbitc_app l1 l2 : nbitc (l1 ++ l2) = nbitc l1 + nbitc l2.
+Proof. induction l1 as [|c l1 IH]; cbn [app nbitc]; [lia | rewrite IH; lia]. Qed.
+Lemma ndotc_app l1 l2 : ndotc (l1 ++ l2) = ndotc l1 + ndotc l2.
+Proof. induction l1 as [|c l1 IH]; cbn [app ndotc]; [lia | rewrite IH; lia]. Qed.
+Lemma bin_fixed_bits : forall (k : nat) a, Forall isbd (bin_fixed k a) /\ nbitc (bin_fixed k a) = Z.of_nat k /\ ndotc (bin_fixed k a) = 0.
+Proof.
+  induction k as [|k IH]; intros a; cbn [bin_fixed].
+  - repeat split; constructor.
+  - destruct (IH (a / 2)) as (F & B & D). rewrite nbitc_app, ndotc_app, B, D.
+    assert (E : a mod 2 = 0 \/ a mod 2 = 1) by (pose proof (Z.mod_pos_bound a 2 ltac:(lia)); lia).
+    split; [|destruct E as [-> | ->]; cbn; lia].
+    apply Forall_app. split; [exact F|]. constructor; [|constructor]. unfold isbd. lia.
+Qed.
+Lemma cf_fill_bits es : forall (k : nat) x r field nrexp bit v, 0 <= x < 2 ^ Z.of_nat k -> Z.of_nat k <= bit ->
+  cf_fill es (bin_fixed k x ++ r) field nrexp bit v =
+  cf_fill es r field (if Z.eqb field 1 then nrexp + Z.of_nat k else nrexp) (bit - Z.of_nat k) (v + x * 2 ^ (bit - Z.of_nat k)).
+Proof.
+  induction k as [|k IH]; intros x r field nrexp bit v Hx Hb.
+  - cbn [bin_fixed app]. change (2 ^ Z.of_nat 0) with 1 in Hx. replace x with 0 by lia.
+    change (Z.of_nat 0) with 0. rewrite !Z.add_0_r, Z.sub_0_r. destruct (Z.eqb field 1); reflexivity.
+  - cbn [bin_fixed]. rewrite <- app_assoc. rewrite Nat2Z.inj_succ in *. rewrite Z.pow_succ_r in Hx by lia.
+    assert (Hq : 0 <= x / 2 < 2 ^ Z.of_nat k).
+    { split; [apply Z.div_pos; lia|]. apply Z.div_lt_upper_bound; lia. }
+    rewrite IH by (try exact Hq; lia). cbn [app cf_fill].
+    assert (E : x mod 2 = 0 \/ x mod 2 = 1) by (pose proof (Z.mod_pos_bound x 2 ltac:(lia)); lia).
+    assert (N46 : Z.eqb (48 + x mod 2) 46 = false) by (apply Z.eqb_neq; lia).
+    rewrite N46.
+    replace (bit - Z.of_nat k - 1) with (bit - Z.succ (Z.of_nat k)) by lia.
+    f_equal.
+    + destruct (Z.eqb field 1); lia.
+    + replace (48 + x mod 2 - 48) with (x mod 2) by lia.
+      replace (bit - Z.of_nat k) with (Z.succ (bit - Z.succ (Z.of_nat k))) by lia.
+      rewrite Z.pow_succ_r by lia. pose proof (Z.div_mod x 2 ltac:(lia)). nia.
+Qed.
+Lemma split3 n es a : 0 <= es -> es + 1 <= n -> 0 <= a < 2 ^ n ->
+  let f := n - 1 - es in
+  a / 2 ^ (n - 1) * 2 ^ (n - 1) + (a / 2 ^ f) mod 2 ^ es * 2 ^ f + a mod 2 ^ f = a /\
+  0 <= a / 2 ^ (n - 1) < 2 /\ 0 <= (a / 2 ^ f) mod 2 ^ es < 2 ^ es /\ 0 <= a mod 2 ^ f < 2 ^ f.
+Proof.
+  intros Hes Hn Ha f. assert (Hf : 0 <= f) by (unfold f; lia).
+  assert (P1 : 0 < 2 ^ f) by (apply Z.pow_pos_nonneg; lia).
+  assert (P2 : 0 < 2 ^ es) by (apply Z.pow_pos_nonneg; lia).
+  assert (E : 2 ^ (n - 1) = 2 ^ f * 2 ^ es) by (rewrite <- Z.pow_add_r by lia; f_equal; unfold f; lia).
+  assert (En : 2 ^ n = 2 * 2 ^ (n - 1)) by (rewrite <- Z.pow_succ_r by lia; f_equal; lia).
+  assert (D : a / 2 ^ (n - 1) = a / 2 ^ f / 2 ^ es) by (rewrite E, Z.div_div by lia; reflexivity).
+  pose proof (Z.div_mod a (2 ^ f) ltac:(lia)) as M1.
+  pose proof (Z.div_mod (a / 2 ^ f) (2 ^ es) ltac:(lia)) as M2.
+  pose proof (Z.mod_pos_bound a (2 ^ f) P1). pose proof (Z.mod_pos_bound (a / 2 ^ f) (2 ^ es) P2).
+  repeat split; try lia.
+  - apply Z.div_pos; lia.
+  - apply Z.div_lt_upper_bound; lia.
+Qed.
+
+Theorem cf_assign_to_binary n es a : 0 <= es -> es + 1 <= n -> 0 <= a < 2 ^ n ->
+  cf_assign n es (cf_bin_string n es a) = a.
+Proof.
+  intros Hes Hn Ha. destruct (split3 n es a Hes Hn Ha) as (Sum & Hs & He & Hf).
+  unfold cf_bin_string. set (f := n - 1 - es) in *.
+  set (s := a / 2 ^ (n - 1)) in *. set (e := (a / 2 ^ f) mod 2 ^ es) in *. set (fr := a mod 2 ^ f) in *.
+  assert (Hf0 : 0 <= f) by (unfold f; lia).
+  cbn [app cf_assign].
+  destruct (bin_fixed_bits 1 s) as (F1 & B1 & D1).
+  destruct (bin_fixed_bits (Z.to_nat es) e) as (F2 & B2 & D2).
+  destruct (bin_fixed_bits (Z.to_nat f) fr) as (F3 & B3 & D3).
+  rewrite Z2Nat.id in B2, B3 by lia.
+  assert (Fd : forall l, Forall isbd l -> Forall isbd (46 :: l)) by (intros l Hl; constructor; [unfold isbd; lia | exact Hl]).
+  rewrite cf_scan_clean by (apply Forall_app; split; [exact F1|]; apply Fd; apply Forall_app; split; [exact F2|]; apply Fd; exact F3).
+  cbn [rev app].
+  rewrite !nbitc_app, !ndotc_app. cbn [nbitc ndotc Z.eqb Pos.eqb]. rewrite !nbitc_app, !ndotc_app. cbn [nbitc ndotc Z.eqb Pos.eqb].
+  rewrite B1, B2, B3, D1, D2, D3.
+  cbn [Z.add Z.eqb Pos.eqb andb Pos.add].
+  (* second pass *)
+  rewrite (cf_fill_bits es 1 s) by (cbn; lia).
+  cbn [cf_fill Z.eqb Pos.eqb Z.add andb Pos.add Z.opp].
+  rewrite (cf_fill_bits es (Z.to_nat es) e) by (rewrite Z2Nat.id by lia; lia).
+  rewrite Z2Nat.id by lia.
+  cbn [cf_fill Z.eqb Pos.eqb Z.add andb Pos.add].
+  rewrite Z.eqb_refl. cbn [negb].
+  rewrite <- (app_nil_r (bin_fixed (Z.to_nat f) fr)).
+  rewrite (cf_fill_bits es (Z.to_nat f) fr) by (rewrite Z2Nat.id by lia; lia).
+  rewrite Z2Nat.id by lia. cbn [cf_fill Z.eqb Pos.eqb].
+  change (Z.of_nat 1) with 1.
+  replace (n - 1 - es - f) with 0 by (unfold f; lia). replace (n - 1 - es) with f by reflexivity.
+  assert (Hc : (1 + (es + f) =? n) = true) by (apply Z.eqb_eq; unfold f; lia).
+  rewrite Hc. cbn [andb]. change (2 ^ 0) with 1. lia.
+Qed.
+
+(* ---- fixpnt: assign (to_binary x) = x ---- *)
+Lemma rev_bin_fixed_S k x : rev (bin_fixed (S k) x) = (48 + x mod 2) :: rev (bin_fixed k (x / 2)).
+Proof. cbn [bin_fixed]. rewrite rev_app_distr. reflexivity. Qed.
+Lemma fx_fill_bits r : forall (k : nat) x t pos v, 0 <= x < 2 ^ Z.of_nat k -> 0 <= pos ->
+  fx_fill r (rev (bin_fixed k x) ++ t) pos v = fx_fill r t (pos + Z.of_nat k) (v + x * 2 ^ pos).
+Proof.
+  induction k as [|k IH]; intros x t pos v Hx Hp.
+  - change (2 ^ Z.of_nat 0) with 1 in Hx. replace x with 0 by lia. cbn [bin_fixed rev app].
+    change (Z.of_nat 0) with 0. rewrite Z.add_0_r, Z.mul_0_l, Z.add_0_r. reflexivity.
+  - rewrite rev_bin_fixed_S. rewrite Nat2Z.inj_succ in *. rewrite Z.pow_succ_r in Hx by lia.
+    assert (Hq : 0 <= x / 2 < 2 ^ Z.of_nat k).
+    { split; [apply Z.div_pos; lia|]. apply Z.div_lt_upper_bound; lia. }
+    pose proof (Z.div_mod x 2 ltac:(lia)) as DM.
+    assert (P : 2 ^ (pos + 1) = 2 * 2 ^ pos) by (rewrite <- Z.pow_succ_r by lia; f_equal).
+    assert (E : x mod 2 = 0 \/ x mod 2 = 1) by (pose proof (Z.mod_pos_bound x 2 ltac:(lia)); lia).
+    cbn [app fx_fill]. destruct E as [E | E]; rewrite E; cbn [Z.add Z.eqb Pos.eqb Pos.add];
+      rewrite IH by (try exact Hq; lia); f_equal; try lia; rewrite P; nia.
+Qed.
+Theorem fx_assign_to_binary n r a : 0 <= r <= n -> 1 <= n -> 0 <= a < 2 ^ n ->
+  fx_assign n r (fx_bin_string n r a) = a.
+Proof.
+  intros Hr Hn Ha. unfold fx_bin_string.
+  assert (P : 0 < 2 ^ r) by (apply Z.pow_pos_nonneg; lia).
+  pose proof (Z.div_mod a (2 ^ r) ltac:(lia)) as DM. pose proof (Z.mod_pos_bound a (2 ^ r) P) as MB.
+  assert (Hfr : 0 <= a mod 2 ^ r < 2 ^ Z.of_nat (Z.to_nat r)) by (rewrite Z2Nat.id by lia; exact MB).
+  set (F := bin_fixed (Z.to_nat r) (a mod 2 ^ r)) in *.
+  destruct (Z.ltb_spec r n) as [Hlt | Hge].
+  - assert (Hi : 0 <= a / 2 ^ r < 2 ^ Z.of_nat (Z.to_nat (n - r))).
+    { rewrite Z2Nat.id by lia. split; [apply Z.div_pos; lia|]. apply Z.div_lt_upper_bound; [lia|].
+      rewrite <- Z.pow_add_r by lia. replace (r + (n - r)) with n by lia. lia. }
+    set (I := bin_fixed (Z.to_nat (n - r)) (a / 2 ^ r)) in *.
+    assert (NI : exists c t, I ++ 46 :: F = c :: t) by (destruct I; cbn [app]; eauto).
+    destruct NI as (c & t & NI).
+    cbn [app]. unfold fx_assign. rewrite NI. rewrite <- NI.
+    replace (rev (48 :: 98 :: I ++ 46 :: F)) with (rev F ++ 46 :: (rev I ++ [98; 48])).
+    2:{ cbn [rev]. rewrite !rev_app_distr. cbn [rev app]. rewrite <- !app_assoc. reflexivity. }
+    unfold F. rewrite fx_fill_bits by (try exact Hfr; lia). rewrite Z2Nat.id by lia.
+    cbn [fx_fill Z.eqb Pos.eqb Z.add]. rewrite Z.eqb_refl.
+    unfold I. rewrite fx_fill_bits by (try exact Hi; lia).
+    cbn [fx_fill Z.eqb Pos.eqb]. change (2 ^ 0) with 1.
+    replace (a mod 2 ^ r * 1 + a / 2 ^ r * 2 ^ r) with a by lia. apply Z.mod_small. exact Ha.
+  - assert (r = n) by lia. subst r.
+    cbn [app]. unfold fx_assign.
+    replace (rev (48 :: 98 :: 48 :: 46 :: F)) with (rev F ++ [46; 48; 98; 48]).
+    2:{ cbn [rev]. rewrite <- !app_assoc. reflexivity. }
+    unfold F. rewrite fx_fill_bits by (try exact Hfr; lia). rewrite Z2Nat.id by lia.
+    cbn [fx_fill Z.eqb Pos.eqb Z.add]. rewrite Z.eqb_refl. cbn [fx_fill Z.eqb Pos.eqb].
+    change (2 ^ 0) with 1. rewrite Z.mod_small with (a := a) (b := 2 ^ n) in * by lia.
+    replace (a * 1) with a by lia. apply Z.mod_small. exact Ha.
+Qed.
+
+(* ---- integer to_hex (upper case) parses back ---- *)
+Lemma digit_val_hexitU d : 0 <= d < 16 -> digit_val (hexitU d) = Some d.
+Proof.
+  intros H. assert (E : exists n, (n < 16)%nat /\ d = Z.of_nat n) by (exists (Z.to_nat d); lia).
+  destruct E as (n & Hn & ->). do 16 (destruct n as [|n]; [reflexivity|]). lia.
+Qed.
+Theorem hex_fixedU_parse : forall (k : nat) a acc, 0 <= a < 16 ^ Z.of_nat k ->
+  parse_digits 16 (hex_fixedU k a) acc = Some (acc * 16 ^ Z.of_nat k + a).
+Proof.
+  induction k as [|k IH]; intros a acc Ha.
+  - cbn [hex_fixedU parse_digits]. change (16 ^ Z.of_nat 0) with 1 in *. f_equal. lia.
+  - cbn [hex_fixedU]. rewrite Nat2Z.inj_succ, Z.pow_succ_r in * by lia.
+    assert (Hq : 0 <= a / 16 < 16 ^ Z.of_nat k).
+    { split; [apply Z.div_pos; lia|]. apply Z.div_lt_upper_bound; lia. }
+    rewrite (parse_digits_app_b 16 _ _ acc _ (IH (a / 16) acc Hq)).
+    cbn [parse_digits]. rewrite digit_val_hexitU by (apply Z.mod_pos_bound; lia).
+    assert (Hm : a mod 16 <? 16 = true) by (apply Z.ltb_lt; apply Z.mod_pos_bound; lia).
+    rewrite Hm. f_equal. pose proof (Z.div_mod a 16 ltac:(lia)). lia.
+Qed.
+Theorem parse_int_hex_string n a : 1 <= n -> 0 <= a < 2 ^ n -> parse_int (int_hex_string n a) = Some a.
+Proof.
+  intros Hn Ha. unfold int_hex_string. cbn [parse_int].
+  rewrite hex_fixedU_parse; [f_equal; lia|].
+  rewrite Z2Nat.id by (pose proof (Z.div_pos (n - 1) 4 ltac:(lia) ltac:(lia)); lia).
+  split; [lia|]. eapply Z.lt_le_trans; [apply Ha|].
+  replace 16 with (2 ^ 4) by reflexivity. rewrite <- Z.pow_mul_r by (pose proof (Z.div_pos (n - 1) 4 ltac:(lia) ltac:(lia)); lia).
+  apply Z.pow_le_mono_r; [lia|]. pose proof (Z.div_mod (n - 1) 4 ltac:(lia)). pose proof (Z.mod_pos_bound (n - 1) 4 ltac:(lia)). lia.
+Qed.
